@@ -338,7 +338,8 @@ pub fn js_str_lit(s: &str) -> String {
 }
 
 pub const DATA_FIELDS: [&str; 8] = ["a", "b", "c", "d", "o", "l", "f", "s"];
-pub const MEMBER_NAMES: [&str; 6] = ["a", "b", "x", "length", "n0", "o"];
+// (names inherited from Object.prototype: a null-safe read of them on null / undefined must still be undefined)
+pub const MEMBER_NAMES: [&str; 10] = ["a", "b", "x", "length", "n0", "o", "toString", "valueOf", "constructor", "hasOwnProperty"];
 pub const NUMS: [&str; 22] = [
     "0", "1", "2", "7", "10", "255", "0x1f", "0xFF", "017", "08", "1.5", ".5", "5.", "1e3", "1e-3", "2.5e2", "9007199254740993",
     "9223372036854775807", "9223372036854775808", "0xffffffffffffffffff", "1e999", "0.1",
